@@ -38,6 +38,7 @@ type raceRec struct {
 	seen   map[string]bool
 	nAcc   int
 	nextThread int
+	rlockReported bool
 }
 
 func (fr *frame) inHarnessCode() bool {
